@@ -1,4 +1,4 @@
-use crate::{BasicData, BasicDataCustom, BasicGarnishData, DataError, basic::garnish::conversions::ConversionDelegate, basic::companion::BasicDataCompanion};
+use crate::{BasicData, BasicDataCustom, BasicGarnishData, DataError, basic::garnish::conversions::{ConversionDelegate, MAX_CONVERSION_DEPTH}, basic::companion::BasicDataCompanion};
 
 struct BasicDataDelegate<'a, T, Companion>
 where
@@ -135,6 +135,10 @@ where
     T: BasicDataCustom,
     Companion: BasicDataCompanion<T>,
 {
+    if depth >= MAX_CONVERSION_DEPTH {
+        return Ok(());
+    }
+
     Ok(match delegate.get_data_at(from)? {
         BasicData::Unit => {
             delegate.push_char('(')?;
